@@ -97,3 +97,132 @@ pub fn replay<R: Replayable>(edges_path: &str, out_path: &str, cfg: &Value) -> i
     println!("{}", json!({"states": n, "reached": order.len(), "edges_taken": taken, "edges_printed": edges.len()}));
     0
 }
+
+/// Binding B2, all paths: the edge replay above drives the real object to each model state along ONE access path.
+/// An implementation may keep state the model's (correct) state does not distinguish -- a timestamp that one of two
+/// routes to the same model state forgot to refresh -- so here every path of the model graph up to `depth` steps is
+/// driven, and after the last step the observed return value and projection are compared with what the access-path
+/// replay observed for the same model edge.  Records are written (in the format of `replay`) only for the steps that
+/// differ; the driver judges them like any other observation.
+pub fn replay_paths<R: Replayable>(edges_path: &str, out_path: &str, cfg: &Value, depth: usize) -> i32 {
+    let edges = read_ndjson(edges_path);
+    let mut ids: HashMap<String, usize> = HashMap::new();
+    let mut out_edges: Vec<Vec<usize>> = Vec::new();
+    let mut from_to: Vec<(usize, usize)> = Vec::with_capacity(edges.len());
+    for (i, e) in edges.iter().enumerate() {
+        let mut id_of = |s: &Value| -> usize {
+            let k = s.to_string();
+            let n = ids.len();
+            *ids.entry(k).or_insert_with(|| { out_edges.push(Vec::new()); n })
+        };
+        let f = id_of(&e["from"]);
+        let t = id_of(&e["to"]);
+        out_edges[f].push(i);
+        from_to.push((f, t));
+    }
+    for oe in out_edges.iter_mut() {
+        let mut seen = std::collections::HashSet::new();
+        oe.retain(|&i| seen.insert(edges[i]["act"].to_string()));
+    }
+    let n = out_edges.len();
+    if n == 0 {
+        eprintln!("no edges");
+        return 2;
+    }
+    let init = from_to[0].0;
+    // canonical observation per edge: the access-path replay
+    let mut parent: Vec<Option<usize>> = vec![None; n];
+    let mut seen = vec![false; n];
+    seen[init] = true;
+    let mut q = VecDeque::new();
+    q.push_back(init);
+    let mut canon: Vec<Option<(Value, Value)>> = vec![None; edges.len()];
+    while let Some(s) = q.pop_front() {
+        let mut path = Vec::new();
+        let mut cur = s;
+        while let Some(ei) = parent[cur] {
+            path.push(ei);
+            cur = from_to[ei].0;
+        }
+        path.reverse();
+        for &ei in &out_edges[s] {
+            let t = from_to[ei].1;
+            if !seen[t] {
+                seen[t] = true;
+                parent[t] = Some(ei);
+                q.push_back(t);
+            }
+            let mut obj = R::fresh(cfg);
+            for &pi in &path {
+                obj.apply(&edges[pi]["act"]);
+            }
+            let ret = obj.apply(&edges[ei]["act"]);
+            canon[ei] = Some((ret, obj.project()));
+        }
+    }
+    // all paths, depth first; the subtrees below the first steps are walked in parallel
+    struct Ctx<'a> { edges: &'a [Value], out_edges: &'a [Vec<usize>], from_to: &'a [(usize, usize)], canon: &'a [Option<(Value, Value)>], cfg: &'a Value, depth: usize }
+    fn walk<R: Replayable>(c: &Ctx, state: usize, path: &mut Vec<usize>, paths: &mut u64, diffs: &mut Vec<Value>) {
+        if path.len() >= c.depth {
+            return;
+        }
+        for &ei in &c.out_edges[state] {
+            // (a path of length <= 1 is an access path itself; still walked, costs nothing)
+            let mut obj = R::fresh(c.cfg);
+            for &pi in path.iter() {
+                obj.apply(&c.edges[pi]["act"]);
+            }
+            let before = obj.project();
+            let ret = obj.apply(&c.edges[ei]["act"]);
+            let after = obj.project();
+            *paths += 1;
+            if let Some((cret, cafter)) = &c.canon[ei] {
+                if (*cret != ret || *cafter != after) && diffs.len() < 200 {
+                    diffs.push(json!({
+                        "edge": ei, "all_paths": true,
+                        "path": path.iter().map(|&pi| c.edges[pi]["act"].clone()).collect::<Vec<_>>(),
+                        "act": c.edges[ei]["act"], "model_from": c.edges[ei]["from"], "model_to": c.edges[ei]["to"],
+                        "retA": c.edges[ei]["retA"], "retI": c.edges[ei]["retI"],
+                        "obs_before": before, "obs_ret": ret, "obs_after": after,
+                    }));
+                }
+            }
+            path.push(ei);
+            walk::<R>(c, c.from_to[ei].1, path, paths, diffs);
+            path.pop();
+        }
+    }
+    let ctx = Ctx { edges: &edges, out_edges: &out_edges, from_to: &from_to, canon: &canon, cfg, depth };
+    // work items: the paths of length 2 (or 1 where a state has no successors)
+    let mut items: Vec<Vec<usize>> = Vec::new();
+    for &e1 in &out_edges[init] {
+        items.push(vec![e1]);
+    }
+    let results: Vec<(u64, Vec<Value>)> = std::thread::scope(|sc| {
+        let hs: Vec<_> = items.iter().map(|it| {
+            let ctx = &ctx;
+            sc.spawn(move || {
+                let mut paths = 0u64;
+                let mut diffs = Vec::new();
+                let mut p = it.clone();
+                let st = ctx.from_to[*p.last().unwrap()].1;
+                walk::<R>(ctx, st, &mut p, &mut paths, &mut diffs);
+                (paths, diffs)
+            })
+        }).collect();
+        hs.into_iter().map(|h| h.join().expect("walker panicked")).collect()
+    });
+    let mut w = NdWriter::create(out_path);
+    let mut total = items.len() as u64;
+    let mut nd = 0usize;
+    for (p, d) in results {
+        total += p;
+        for r in d {
+            nd += 1;
+            w.put(&r);
+        }
+    }
+    w.finish();
+    println!("{}", json!({"paths": total, "depth": depth, "differing_steps": nd}));
+    0
+}
